@@ -1,0 +1,48 @@
+//go:build verif
+
+package store
+
+import (
+	"sync/atomic"
+
+	"github.com/canopy-network/canopy/lib"
+	"github.com/canopy-network/canopy/lib/crypto"
+)
+
+// This file exists only under the `verif` build tag. It gives the external verification harness
+// (/verif) access to a few package-private operations; it adds no behaviour to a normal build.
+
+// VerifPurgeProcessCaches() empties the process-wide caches of this package so that a test binary can
+// simulate 'a fresh process' (several nodes in one process otherwise serve each other's cached blocks)
+func VerifPurgeProcessCaches() { blockCache.Purge() }
+
+// VerifSMTCommit() applies a batch of sets / deletes (raw, un-hashed keys) to a tree through the
+// sequential or the parallel commit path exactly as Store.Root() would
+func VerifSMTCommit(s *SMT, sets map[string][]byte, deletes []string, parallel bool) lib.ErrorI {
+	ops := make(map[uint64]valueOp, len(sets)+len(deletes))
+	for k, v := range sets {
+		ops[lib.MemHash([]byte(k))] = valueOp{key: []byte(k), value: v, op: opSet}
+	}
+	for _, k := range deletes {
+		ops[lib.MemHash([]byte(k))] = valueOp{key: []byte(k), op: opDelete}
+	}
+	if parallel {
+		return s.CommitParallel(ops)
+	}
+	return s.Commit(ops)
+}
+
+// VerifSMTLeafKey() returns the encoded tree key a raw key maps to in this tree
+func VerifSMTLeafKey(s *SMT, k []byte) []byte {
+	return newNodeKey(crypto.Hash(k), s.keyBitLength).bytes()
+}
+
+// VerifPoint is called (when set) at named points inside the store so the harness can impose a chosen
+// order on concurrent workers or observe intermediate steps; i identifies the worker
+var VerifPoint atomic.Pointer[func(name string, i int)]
+
+func verifPoint(name string, i int) {
+	if f := VerifPoint.Load(); f != nil {
+		(*f)(name, i)
+	}
+}
